@@ -162,6 +162,7 @@ class Ctx:
         self.rng = np.random.default_rng(ss)
         self.evaluations = 0
         self.hits = {}
+        self.attached_points = set()  # every point a contract was attached to (zero-hit ones are reported by the runner)
         self.violations = {}  # key -> {count, what, witnesses:[...]}
         self.inconclusive_count = {}
         self.workload_classes = {}
@@ -377,6 +378,7 @@ class Ctx:
         if getattr(func, '__vmon_orig__', None) is not None:
             raise RuntimeError(f'{name} already attached')
         point = point or f'{getattr(owner, "__name__", owner)}.{name}'
+        self.attached_points.add(point)
         ctx = self
         sig = None
         if normalize:
@@ -494,6 +496,7 @@ class Ctx:
             'shard': self.shard,
             'evaluations': self.evaluations,
             'hits': self.hits,
+            'attached_points': sorted(self.attached_points),
             'violations': list(self.violations.values()),
             'inconclusive': self.inconclusive_count,
             'workload_classes': self.workload_classes,
